@@ -216,4 +216,15 @@ Section Gen.
     replace (len (map szA ka)) with (len ka) by (unfold len; rewrite map_length; reflexivity).
     exact F3.
   Qed.
+
+  (** valid as-is, on the oracles: every payload handed out was admitted by the tree in the state made by exactly the
+      payloads handed out before it in body order (context, then VTBs, then ATVs) - the state a block carrying exactly
+      this PopData is in when it applies that payload *)
+  Lemma selection_replays_lemma order :
+    let out := gen order in
+    (forall pre b post, o_ctx out = pre ++ b :: post -> admB par treeB dupB okB pre b = true) /\
+    (forall pre t post, o_vtbs out = pre ++ t :: post -> admV cont treeB dupV okV (o_ctx out) pre t = true) /\
+    (forall pre a post, o_atvs out = pre ++ a :: post ->
+                        admA bop treeB dupA okA (o_ctx out) (o_vtbs out) pre a = true).
+  Proof. destruct (gen_spec order) as [_ [_ [_ [_ [_ [_ H]]]]]]. exact H. Qed.
 End Gen.
